@@ -130,3 +130,46 @@ package store
 //@   allcallers
 //@   requires[C16] byFuse()
 //@   requires n.fs != nil && n.fs.nodeMap != nil && n.attr != nil
+
+// ---- C13: the store's prefetch of a freshly resolved layer runs as one prioritized task ----
+//@ ghost prioBegun int quiet
+//@ ghost prioDone int quiet
+//@ func task.(*BackgroundTaskManager).DoPrioritizedTask
+//@   trusted
+//@   modifies prioBegun
+//@   ensures prioBegun == old(prioBegun) + 1
+//@ func task.(*BackgroundTaskManager).DonePrioritizedTask
+//@   trusted
+//@   modifies prioDone
+//@   ensures prioDone == old(prioDone) + 1
+//@ func (r *LayerManager) resolveLayer$2
+//@   props C13
+//@   taggedonly
+//@   requires r != nil && r.backgroundTaskManager != nil && l != nil
+//@   assert[C13] before "l.Prefetch(r.prefetchSize)" : prioBegun == old(prioBegun) + 1 && prioDone == old(prioDone)
+//@   ensures[C13] prioBegun == old(prioBegun) + 1 && prioDone == old(prioDone) + 1
+
+// ---- C16 / C12: a freshly resolved layer is either cached or given back ----
+// resolveLayer obtains one layer reference from the resolver (on success); that reference is kept if and only if the
+// layer went into the manager's table (cacheLayer added it), otherwise it is given back exactly once; the outcome is
+// recorded in the memo only after the resolution ended (the deferred write), under the manager's lock.
+//@ ghost dones int quiet
+//@ ghost doneLayer ref quiet
+//@ ghost resolves int quiet
+//@ func interface fs/layer.Layer.Done
+//@   modifies dones, doneLayer
+//@   ensures dones == old(dones) + 1 && doneLayer == payload(self)
+//@ func fs/layer.(*Resolver).Resolve
+//@   trusted
+//@   modifies resolves
+//@   ensures resolves == old(resolves) + 1 && (result1 == nil ==> result0 != nil)
+//@ func fs/metrics/layer.(*Controller).Add
+//@   trusted
+//@   modifies nothing
+//@ func (r *LayerManager) resolveLayer
+//@   props C16,C12
+//@   taggedonly
+//@   requires r.resolver != nil && r.resolveLock != nil && r.metricsController != nil && r.backgroundTaskManager != nil
+//@   ensures[C16,C12] retErr != nil ==> dones == old(dones)
+//@   ensures[C16,C12] retErr == nil && resolves == old(resolves) + 1 ==> (added && dones == old(dones)) || (!added && dones == old(dones) + 1 && doneLayer == payload(l))
+//@   ensures[C16] resolves == old(resolves) ==> dones == old(dones)
